@@ -4,6 +4,7 @@ CONSTANTS
    DestNames <- Dests_ab
    MaxSet = 2
    LvlFirst = {2, 5}
+   LvlMid = {3}
    ClsFirst <- Cls_26_1
    LvlLast = {1, 4}
    FullLast = FALSE
